@@ -263,15 +263,15 @@ MANIFEST_TEXT = {
     "C04": {"text": "Proof: the extracted skeletons of Execute / ExecuteSelectedRules / ExecuteSelectedRulesWithControl are instances (rfl) of the sorted-family template, which conforms to the reference semantics for every configuration (order, exactly once, both error policies); differential runs of the real engine against model and spec find the replay when an obligation breaks.",
             "note": ORCH_NOTE + " Sortedness of the installed list itself is C08's invariant.",
             "technique": "Lean 4 conformance proof over regenerated orchestration skeleton + gate-scheduled differential runs"},
-    "C05": {"text": "Proof: (1) conformance of the ten mix / inverse-mix / N-M skeletons (which rules, which stage, both policies, all n/m, fan-outs well formed); (2) barrier theorem over the WaitGroup LTS for every stage plan and every interleaving; trace checker proved sound. Gate-scheduled runs of the real engine are replayed through the checker.",
+    "C05": {"text": "Proof: (1) conformance of the ten mix / inverse-mix / N-M skeletons (which rules, which stage, both policies, all n/m, fan-outs well formed); (2) barrier theorem over the WaitGroup LTS for every stage plan and every interleaving; trace checker proved sound. Gate-scheduled runs of the real engine are replayed through the checker. Regenerated premises of the WaitGroup transition system (GV.Props.Fanout, kernel-decided): no goroutine closure of the fan-out sites refers to a variable of an enclosing loop, Done() is called only inside the goroutine it accounts for, every worker closure signals exactly once.",
             "note": ORCH_NOTE, "technique": "Lean 4 conformance proof + invariant proof over interleaving LTS + gate-scheduled differential runs"},
     "C09": {"text": "Proof (engine level): for every ResultsWF skeleton no execution method panics; extracted skeletons are ResultsWF by decide. Rule-level fault containment is checked by differential fault injection (see evidence).",
             "note": ORCH_NOTE, "technique": "Lean 4 generic no-panic theorem over regenerated skeletons + fault-injection differential runs"},
-    "C11": {"text": "Proof: for every ResultsWF skeleton (all 21 extracted ones, by decide) the result-map write log is exactly the executed rules that returned, for an arbitrary previous map; differential runs compare the real map with the rules that actually ran and returned.",
+    "C11": {"text": "Proof: for every ResultsWF skeleton (all 21 extracted ones, by decide) the result-map write log is exactly the executed rules that returned, for an arbitrary previous map; differential runs compare the real map with the rules that actually ran and returned. Regenerated premises of the WaitGroup transition system (GV.Props.Fanout, kernel-decided): no goroutine closure of the fan-out sites refers to a variable of an enclosing loop, Done() is called only inside the goroutine it accounts for, every worker closure signals exactly once.",
             "note": ORCH_NOTE, "technique": "Lean 4 generic invariant proof over regenerated skeletons + differential runs"},
     "C12": {"text": "Proof: conformance of the eleven selected-rule skeletons to the reference semantics (selection = named existing rules in caller order, sorted / as-given / concurrent / mix / inverse / N-M variants, strict N-M guards).",
             "note": ORCH_NOTE, "technique": "Lean 4 conformance proof over regenerated skeletons + differential runs"},
-    "C13": {"text": "Proof: conformance of the DAG skeleton (layers, occurrences, unknown names skipped, failure stops) + barrier theorem for every layering and interleaving.",
+    "C13": {"text": "Proof: conformance of the DAG skeleton (layers, occurrences, unknown names skipped, failure stops) + barrier theorem for every layering and interleaving. Regenerated premises of the WaitGroup transition system (GV.Props.Fanout, kernel-decided): no goroutine closure of the fan-out sites refers to a variable of an enclosing loop, Done() is called only inside the goroutine it accounts for, every worker closure signals exactly once.",
             "note": ORCH_NOTE, "technique": "Lean 4 conformance proof + LTS barrier invariant + gate-scheduled differential runs"},
     "C14": {"text": "Proof: conformance of the four stop-tag skeletons; corollaries: tag never set => identical to the plain variant; the setting rule is the last to run; mix runs nothing else.",
             "note": ORCH_NOTE, "technique": "Lean 4 conformance proof over regenerated skeletons + differential runs"},
@@ -289,13 +289,13 @@ MANIFEST_TEXT.update({
             "note": EVAL_NOTE, "technique": "Lean 4 refinement proof (mutual structural induction) + clause theorems + differential runs"},
     "C03": {"text": "Proof: theorems over the data-layer model: injected names win for reads and writes, writes leave every other object and every other field untouched, field writes store the converted value, conversions within and across numeric classes, narrowing preserves representable values, arguments positional and converted, missing map key reads zero. Differential runs compare host-visible state after every rule over structs, pointers, maps, slices, arrays, functions and methods.",
             "note": EVAL_NOTE, "technique": "Lean 4 proofs over the store model + differential state comparison"},
-    "C15": {"text": "Proof: an execution's outcome is independent of any incoming local table (fresh locals), an unassigned local reads as not-found, injected state is what is passed from rule to rule, injected names win over locals. Differential runs: rule sequences and repeated executions reusing local names, a name injected mid-rule, and barrier-synchronised concurrent executions of one rule entity.",
+    "C15": {"text": "Proof: an execution's outcome is independent of any incoming local table (fresh locals), an unassigned local reads as not-found, injected state is what is passed from rule to rule, injected names win over locals. Differential runs: rule sequences and repeated executions reusing local names, a name injected mid-rule, and barrier-synchronised concurrent executions of one rule entity. Regenerated facts (kernel-decided): RuleEntity.Execute hands a table made on the spot to the rule's statements, nothing stores it, it is passed only to Evaluate and the data context's accessors, and no method of internal/base writes to the (shared) rule tree.",
             "note": EVAL_NOTE + " Concurrent executions: the model gives each execution its own table by construction; that the code does is checked by the concurrent probe only (partial).",
             "technique": "Lean 4 proofs over the interpreter model + differential runs + concurrent probe"},
-    "C18": {"text": "Proof: (1) the reference meaning of a conc block runs every child exactly once and fails, after all children, iff one failed, with the first error (C18_all_children_run, C18_child_error_fails_block, C18_all_ok), tied to the interpreter by rule_refines; (2) join: the fan-out is the one-stage instance of the WaitGroup transition system: in every interleaving Wait is passed only after every child started and ended exactly once (C18_join, C18_no_early_pass). Differential runs with delayed observer children, failing children and statements reading the block's writes.",
+    "C18": {"text": "Proof: (1) the reference meaning of a conc block runs every child exactly once and fails, after all children, iff one failed, with the first error (C18_all_children_run, C18_child_error_fails_block, C18_all_ok), tied to the interpreter by rule_refines; (2) join: the fan-out is the one-stage instance of the WaitGroup transition system: in every interleaving Wait is passed only after every child started and ended exactly once (C18_join, C18_no_early_pass). Differential runs with delayed observer children, failing children and statements reading the block's writes. Regenerated premises of the WaitGroup transition system (GV.Props.Fanout, kernel-decided): no goroutine closure of the fan-out sites refers to a variable of an enclosing loop, Done() is called only inside the goroutine it accounts for, every worker closure signals exactly once. Lock balance (GV.Props.Locks): the lock skeleton of every function that touches a mutex is regenerated; a proved-sound abstract interpreter shows that no way out of such a function - return at any depth, panic in a callee - leaves a mutex held. The conc node keeps nothing between executions (regenerated: no method writes to the node it is called on).",
             "note": EVAL_NOTE + " The WaitGroup LTS is hand-written from ConcStatement.Evaluate (Add(n); n goroutines ending in Done; Wait) and tied by the trace comparison; lock discipline of lockVars is exercised (hang detection), not proved.",
             "technique": "Lean 4 proofs (induction over children + LTS invariant) + differential runs"},
-    "C20": {"text": "Proof: C20_cited_line_is_a_construct / C20_interpreter_cites: whenever the error of a failed rule cites a line, that line is the line of a construct of the rule (mutual induction over expressions, arguments, assignments, statements, loops, conc blocks; for every program, environment and primitives), also for the interpreter on the listener's AST; lowering copies each construct's line into its AST node; the reference semantics cites the failing construct's own line for arithmetic, comparison, logic, call and assignment faults and keeps the innermost citation; rule_refines / lowerX_correct carry this to the interpreter. Differential runs over multi-line renderings compare the line the real error cites with the failing construct's line in the reference tree, and the positions the listener recorded with the lowering (shape-pos).",
+    "C20": {"text": "Proof: C20_cited_line_is_a_construct / C20_interpreter_cites: whenever the error of a failed rule cites a line, that line is the line of a construct of the rule (mutual induction over expressions, arguments, assignments, statements, loops, conc blocks; for every program, environment and primitives), also for the interpreter on the listener's AST; lowering copies each construct's line into its AST node; the reference semantics cites the failing construct's own line for arithmetic, comparison, logic, call and assignment faults and keeps the innermost citation; rule_refines / lowerX_correct carry this to the interpreter. Differential runs over multi-line renderings compare the line the real error cites with the failing construct's line in the reference tree, and the positions the listener recorded with the lowering (shape-pos). Regenerated from the listener: every recorded line / column is that of the construct's first token.",
             "note": EVAL_NOTE, "technique": "Lean 4 proofs over reference semantics + differential cited-line and position comparison"},
 })
 MANIFEST_TEXT["C10"] = {
@@ -315,14 +315,14 @@ MANIFEST_TEXT["C16"] = {
     "note": "Model hand-written over container values; that updates never write into a published container is a regenerated fact (GV.Generated.Pool.inPlaceStores) used by C07. Trusted: Lean kernel, extractor, harness, comparator.",
     "technique": "Lean 4 refinement proof over operation histories + differential management sequences with per-instance executions"}
 MANIFEST_TEXT["C17"] = {
-    "text": "Proof: invariant of the free-list / in-flight / put-goroutine transition system for any number of clients, any min <= max, every interleaving: the tags on the two lists, in flight and on their way back are a permutation of 0..max-1; hence at most max in flight, no instance handed to two requests, all instances back when nothing is in flight, acquire enabled whenever a list is non-empty, some step enabled unless idle. Regenerated facts: every pool Execute* method releases in a deferred function installed right after prepare (so on return, error and panic alike); getGengine / putGengineLocked have the modelled shape. Differential runs measure peak concurrency with more clients than instances, failing requests, and capacity afterwards.",
+    "text": "Proof: invariant of the free-list / in-flight / put-goroutine transition system for any number of clients, any min <= max, every interleaving: the tags on the two lists, in flight and on their way back are a permutation of 0..max-1; hence at most max in flight, no instance handed to two requests, all instances back when nothing is in flight, acquire enabled whenever a list is non-empty, some step enabled unless idle. Regenerated facts: every pool Execute* method releases in a deferred function installed right after prepare (so on return, error and panic alike); getGengine / putGengineLocked have the modelled shape. Differential runs measure peak concurrency with more clients than instances, failing requests, and capacity afterwards. Lock balance (GV.Props.Locks): the lock skeleton of every function that touches a mutex is regenerated; a proved-sound abstract interpreter shows that no way out of such a function - return at any depth, panic in a callee - leaves a mutex held. Lock order: ranked acquisition excludes wait cycles (theorem); the acquisition order of the current source, computed over the regenerated skeletons and call-graph summaries, is decided by the kernel to go up in the ranking (the analysis itself is argued sound, not proved).",
     "note": "Liveness = enabledness + scheduler fairness (assumed). Trusted: Lean kernel, extractor, harness, comparator.",
     "technique": "Lean 4 invariant proof over an interleaving transition system + regenerated method-shape facts + differential concurrency runs"}
 MANIFEST_TEXT["C06"] = {
     "text": "Proof: (1) in every reachable state of the pool transition system an instance has at most one holder and its data context holds request keys of that holder only, none when idle or on its way back; (2) every engine execution method allocates a fresh result map and writes exactly what its rules returned (C11's theorem over regenerated skeletons), so a map handed back holds only that request's values and is never written again; (3) regenerated facts: every pool method deletes exactly the keys it injected in the deferred clean-up before handing the instance back. Differential runs: simultaneous parked requests with unique ids echoing them into results and their own objects, a later request that injects nothing, result maps compared after later traffic.",
     "note": "Rule bodies reach data only through the instance's private data context (C03, C15): that part is by the evaluator model, not re-proved here. Trusted: Lean kernel, extractor, harness, comparator.",
     "technique": "Lean 4 invariant proof over an interleaving transition system + regenerated facts + differential isolation runs"}
-MANIFEST_TEXT["C09"] = {"text": "Proof: engine level: for every ResultsWF skeleton (all 21 extracted ones) no execution method panics; rule level: with the recover at RuleEntity.Execute (fact regenerated from source) no rule body and no data make the rule's execution panic, an unbounded for loop is cut off with an error after maxExecuteNum iterations, and the interpreter model is total. Differential fault injection: ill-typed programs, panicking injected functions, unbounded loops, failing conc children, in a child process with a hang timeout.",
+MANIFEST_TEXT["C09"] = {"text": "Proof: engine level: for every ResultsWF skeleton (all 21 extracted ones) no execution method panics; rule level: with the recover at RuleEntity.Execute (fact regenerated from source) no rule body and no data make the rule's execution panic, an unbounded for loop is cut off with an error after maxExecuteNum iterations, and the interpreter model is total. Differential fault injection: ill-typed programs, panicking injected functions, unbounded loops, failing conc children, in a child process with a hang timeout. Lock balance (GV.Props.Locks): the lock skeleton of every function that touches a mutex is regenerated; a proved-sound abstract interpreter shows that no way out of such a function - return at any depth, panic in a callee - leaves a mutex held.",
     "note": ORCH_NOTE + " " + EVAL_NOTE, "technique": "Lean 4 no-panic theorems over regenerated skeletons and facts + totality of the interpreter model + fault-injection differential runs"}
 
 NOT_APPLICABLE = {}
